@@ -75,6 +75,20 @@ CLAIMED = {
         note="Member sequences longer than 3 are covered by uniformity of the loop body only (stated, not proved by induction). hasattr / copy / deepcopy / pickle are exercised by the bounded companion on random real instances. A-NONEATTR: looked-up names are not NoneType attributes.",
         technique="loop-body contracts with abstract sub-aggregates; symbolic execution of the real properties on heap instances; pyvc + z3",
         engine="pyvc"),
+    "C14": dict(
+        category="proof",
+        text="Control/data-flow contracts on the real OFXClient methods with abstract callees: download sends nothing on a dry run and otherwise performs exactly one post_request to (url or self.url) with the serialized request; post_request builds one POST Request with that body, the three prescribed headers and an opener holding a cookie processor bound to this instance's jar iff cookies persist; request_statements/accounts/tax1099 pass '' on a dry run, self.url with skip_profile and otherwise the single advertised service URL, and hand the caller's password to signon; _request_profile signs on with the anonymous placeholder for user and password; __init__ allocates a fresh jar per instance.",
+        design_ref="DESIGN.md 9 (C14)",
+        note="Callees are uninterpreted recorders (contracts only). Cookie storage/replay is http.cookiejar (T-EXT); the bounded companion runs all request sequences of length <= 3 over two clients x {post, dry run} x persist_cookies x cookie-setting server on the real urllib opener with a fake transport. The `requests` branch of post_request is unverified code (library absent, USE_REQUESTS False). The url rule is proved with no statement requests given.",
+        technique="frame/flow contracts over abstract callees (pyvc + z3); bounded run on the real urllib stack",
+        engine="pyvc"),
+    "C15": dict(
+        category="proof",
+        text="Per-call contract of the real request_profile over a ghost file system and an abstract parser: the request carries the date of the profile held (none when nothing is cached); 'up to date' returns the cached bytes and leaves the cache untouched; a status-0 response is accepted only if not older than the one held, is written whole and returned; every failing path (transport failure, garbage, error status, 'up to date' with nothing cached, older profile) raises before the cache file is opened for writing and only for one of these reasons; dry runs write nothing. Hence, by induction over sequential histories, the cache is always absent or one complete accepted profile at least as new as any it held.",
+        design_ref="DESIGN.md 9 (C15)",
+        note="NOT DECIDED by this technique family (no contract within reach, nothing substituted): a crash between open(...,'wb') and the completed write; interleavings of concurrent request_profile calls. Known finding: cache key <org>-<fid> ignores the URL. The induction over histories is argued from the per-call contract, not machine-checked; the bounded companion enumerates all histories of length <= 3 (4 thorough) over 8 server behaviours with client restarts on a real cache file.",
+        technique="contract with ghost file state and abstract parser (pyvc + z3); bounded enumeration of histories on real files",
+        engine="pyvc"),
 }
 
 
